@@ -700,17 +700,21 @@ func (x *Exec) safetyKind(kind string) bool {
 	if x.rootC.Safety || x.rootC.SafetyKinds[kind] {
 		return true
 	}
-	return x.rootC.SafetyKinds == nil && defaultSafety[kind]
+	if x.rootC.SafetyKinds["-"+kind] {
+		return false // `safety -divzero`: a default kind declared out of scope for this function (with the reason)
+	}
+	return defaultSafety[kind]
 }
 
 // run-time checks proved in every function under contract unless its contract says otherwise: index / slice
-// bounds and integer division by zero (GOVC_SAFETY overrides the list; nil dereference, type assertions, nil-map
-// writes and make() sizes are opt-in per contract with `safety <kinds>` / `safety on`)
+// bounds, integer division by zero, writes to nil maps and make() sizes (GOVC_SAFETY overrides the list; nil
+// dereference and type assertions are opt-in per contract with `safety <kinds>` / `safety on`; `safety -kind`
+// takes a default kind out for one function)
 var defaultSafety = func() map[string]bool {
 	m := map[string]bool{}
 	list, set := os.LookupEnv("GOVC_SAFETY")
 	if !set {
-		list = "bounds divzero"
+		list = "bounds divzero nilmap makeslice"
 	}
 	for _, k := range strings.Fields(strings.ReplaceAll(list, ",", " ")) {
 		m[k] = true
